@@ -473,7 +473,18 @@ pub fn mutate_source_text(src: &str, other: &str, t: &mut Tape) -> (String, Stri
                     .collect();
                 if !words.is_empty() {
                     let (pos, w) = words[t.pick(words.len())];
-                    let repl = format!("{}{}", &s[..pos], "zz_unknown");
+                    // ... or to a reserved word / another identifier of the same source: names
+                    // where a knot, function or variable is expected (`<- DONE`, `-> END ->`,
+                    // `~ END()`, `VAR x = -> DONE`)
+                    let other_word = words[t.pick(words.len())].1;
+                    let name = match t.pick(8) {
+                        0 | 1 | 2 => "zz_unknown",
+                        3 => "END",
+                        4 => "DONE",
+                        5 => ["else", "function", "not", "true", "temp", "return"][t.pick(6)],
+                        _ => other_word,
+                    };
+                    let repl = format!("{}{}", &s[..pos], name);
                     let rest = &s[pos + w.len()..];
                     chars = format!("{repl}{rest}").chars().collect();
                 }
